@@ -724,7 +724,7 @@ COMBOS = [
     ("h_exp", "set-values", False, False, False, False, "iminuit"),
     ("i_const", "fit", False, False, True, False, "iminuit"),
     ("exp", "fit", False, True, False, True, "iminuit"),
-    ("quad", "new-data", True, False, False, False, "scipy"),
+    ("quad", "new-data", True, False, False, False, "iminuit"),
     ("h_norm", "unfitted-first", False, True, False, False, "iminuit"),
     ("i_line", "fix-later", False, False, False, False, "iminuit"),
     ("s_line", "new-data", True, False, True, False, "iminuit"),
@@ -747,6 +747,8 @@ def gen_report_case(rng, idx, slot):
     ftype, _spec, pnames, _true, _kind = MODELS[model]
     if len(pnames) == 1:
         fix = False  # keep at least one free parameter
+    if asym and mini == "scipy" and len(pnames) - bool(fix) > 2:
+        mini = "iminuit"  # scipy profile scans of three free parameters take ~15 s
     case = {
         "kind": "report",
         "index": idx,
@@ -1112,8 +1114,10 @@ def observe(ctx, fit, case, tmpdir, step):
     # is property C08, not C17): read everything once, then snapshot before and after every display call
     if want_asym:
         try:
-            with time_limit(90):
+            with time_limit(6 if ctx.tier == "quick" else 40):
                 fit.asymmetric_parameter_errors
+        except OpTimeout:
+            raise _Abort("asymmetric errors too slow")
         except Exception:
             ctx.note("observe.asymmetric-errors-not-computable")  # not a display problem: observe without them
             want_asym = False
